@@ -141,8 +141,25 @@ mod verif_deflate_core {
         assert!(d.params.window_bits_max == wbc, "OBL:with_params.window_bits_clamped [C11 C09]");
         assert!(d.params.window_bits_max <= 15, "OBL:with_params.window_bits_le_15 [C09 C11]");
         let (l2, s2) = limit_level_by_window_bits(wbc, lv, strat);
-        let want = create_comp_flags_from_zip_params(l2, if fmt == DataFormat::Raw { -(wbc as i32) } else { wbc as i32 }, s2 as i32);
-        assert!(d.params.flags == want, "OBL:with_params.flags [C10 C11]");
+        let base = create_comp_flags_from_zip_params(l2, if fmt == DataFormat::Raw { -(wbc as i32) } else { wbc as i32 }, s2 as i32);
+        let f = d.params.flags;
+        // clauses taken from the property text (C10): the requested strategy is honoured in every configuration,
+        // also when a small window forces run-length matching on top of it
+        let stored = f & TDEFL_FORCE_ALL_RAW_BLOCKS != 0;
+        assert!(stored == (lv == 0), "OBL:with_params.level0_iff_stored_only [C01 C10]");
+        if !stored {
+            if strat == CompressionStrategy::Fixed { assert!(f & TDEFL_FORCE_ALL_STATIC_BLOCKS != 0, "OBL:with_params.fixed_strategy_never_dynamic_blocks_any_window [C10]"); }
+            if strat == CompressionStrategy::Filtered { assert!(f & TDEFL_FILTER_MATCHES != 0, "OBL:with_params.filtered_strategy_kept_any_window [C10]"); }
+            if strat == CompressionStrategy::HuffmanOnly { assert!(f & MAX_PROBES_MASK == 0 && f & TDEFL_RLE_MATCHES == 0, "OBL:with_params.huffman_only_no_matching_any_window [C10]"); }
+            if strat == CompressionStrategy::RLE { assert!(f & TDEFL_RLE_MATCHES != 0, "OBL:with_params.rle_strategy_kept [C10]"); }
+            // a window below 4 KiB can only be honoured by distance-1 matching or no matching at all (C11)
+            if wbc < 12 { assert!(f & TDEFL_RLE_MATCHES != 0 || f & MAX_PROBES_MASK == 0, "OBL:with_params.small_window_means_rle_or_no_matching [C11]"); }
+            if wbc < 15 && f & TDEFL_RLE_MATCHES == 0 && f & MAX_PROBES_MASK != 0 { assert!(f & MAX_PROBES_MASK == 1, "OBL:with_params.window_12_to_14_means_one_probe [C11]"); }
+        }
+        // everything else is the flag word of the (possibly limited) level/strategy
+        let extra = TDEFL_FORCE_ALL_STATIC_BLOCKS | TDEFL_FILTER_MATCHES;
+        assert!(f & !extra == base & !extra && f & base == base, "OBL:with_params.flags [C10 C11]");
+        let want = f;
         assert!(d.params.greedy_parsing == (want & TDEFL_GREEDY_PARSING_FLAG != 0), "OBL:with_params.greedy [C10]");
         assert!(d.dict.max_probes[0] == probes_from_flags(want)[0] && d.dict.max_probes[1] == probes_from_flags(want)[1], "OBL:with_params.probes [C10]");
         // level byte: everything above 10 behaves as 10
